@@ -236,7 +236,7 @@ pub fn run_c01(out: &mut Out, rng: &mut Rng, thorough: bool, only: Option<&str>)
             s.whole(&e);
         }
         // injected states: counts that only multi-GiB inputs reach
-        let k = if thorough { 120 } else { 24 };
+        let k = if thorough { 168 } else { 42 };
         for j in 0..k {
             let st = craft_state(*v, rng, j);
             s.inject(1, &st);
@@ -254,7 +254,7 @@ pub fn craft_state(v: &dyn Var, rng: &mut Rng, recipe: usize) -> VerifGeneratorS
         let hi = (c + w).min(u32::MAX as u64);
         rng.range(lo, hi) as u32
     };
-    match recipe % 12 {
+    match recipe % 14 {
         0 => {
             for b in bk.iter_mut().take(nb) {
                 *b = rng.below(16) as u32;
@@ -341,9 +341,40 @@ pub fn craft_state(v: &dyn Var, rng: &mut Rng, recipe: usize) -> VerifGeneratorS
                 bk[i] = around(rng, *rng.clone().pick(&[1u64, 5, 1 << 20, (1u64 << 32) - 1]), 0).max(1);
             }
         }
+        12 => {
+            // quartiles straddling an arithmetic threshold: q1 just below T, q2 (and q3) just above
+            let t = *rng.pick(&[167_772u64, 1 << 24, 42_949_672, 42_949_673, 1 << 31, 21_474_836]);
+            let q1 = t - rng.range(1, 40);
+            let q2 = t + rng.range(0, 40);
+            let q3 = q2 + rng.range(0, 1 << 20).min(u32::MAX as u64 - q2);
+            let quarter = nb / 4;
+            let mut vals: Vec<u32> = Vec::with_capacity(nb);
+            for i in 0..nb {
+                let x = if i < quarter { q1 - (i as u64 % 3) } else if i < 2 * quarter { q2 } else if i < 3 * quarter { q3 } else { q3 + (i as u64 % 5) };
+                vals.push(x.min(u32::MAX as u64) as u32);
+            }
+            vals[quarter - 1] = q1 as u32;
+            for i in (1..nb).rev() {
+                let j = rng.below(i as u64 + 1) as usize;
+                vals.swap(i, j);
+            }
+            bk[..nb].copy_from_slice(&vals);
+        }
+        13 => {
+            // ties: more than half (or all but a few) of the buckets hold the same count c
+            let c = *rng.pick(&[671_089u32, 700_001, 799_999, 1 << 24, 42_949_672, 42_949_673, 0x8000_0000, u32::MAX, 3]);
+            let others = rng.below((nb / 4) as u64) as usize;
+            for (i, b) in bk.iter_mut().take(nb).enumerate() {
+                *b = if i < others { if rng.chance(1, 2) { c.wrapping_sub(1 + rng.below(9) as u32) } else { c.saturating_add(1 + rng.below(9) as u32) } } else { c };
+            }
+            for i in (1..nb).rev() {
+                let j = rng.below(i as u64 + 1) as usize;
+                bk.swap(i, j);
+            }
+        }
         _ => {
             // all equal
-            let c = *rng.pick(&[0u32, 1, 7, 1 << 24, 0x8000_0000, u32::MAX]);
+            let c = *rng.pick(&[0u32, 1, 7, 671_089, 1 << 24, 42_949_673, 0x8000_0000, u32::MAX]);
             for b in bk.iter_mut().take(nb) {
                 *b = c;
             }
@@ -705,6 +736,16 @@ pub fn run_c11big(out: &mut Out, rng: &mut Rng, only: Option<&str>, giant_slice:
                 pos = m;
                 s.fin(0);
             }
+        }
+        {
+            // one slice of k * 2^30 + {1,2,3} bytes after a random prefix, then more data
+            let extra = 1 + rng.below(3);
+            let blocks = if marks_stream { 2 } else { 1 };
+            s.new_gen(3);
+            s.update(3, &rng.bytes(300));
+            s.update_periodic(3, &[0u8], 300, blocks * (1u64 << 30) + extra, rng, true);
+            s.update(3, &rng.bytes(9));
+            s.fin(3);
         }
         if giant_slice && !marks_stream {
             // quick tier: one slice of 2^32 + 445 bytes only
